@@ -174,6 +174,71 @@ def check_splitter(arg):
     return fails, len(names)
 
 
+def check_container(arg):
+    """names rendered for entries that live inside containers (ACL, groups) are those of the container's platform and version, also after
+    operations that rebuild the entries"""
+    import cisco_acl
+    platform, version, grouped, op, tcp_names, udp_names = arg
+    head = "ip access-list extended A" if platform == "ios" else "ip access-list A"
+    lines = ["remark = H1", "permit tcp any any eq 135", "permit tcp any any eq 514", "remark = H2", "permit tcp any eq 15001 any", "permit udp any any eq 521",
+             "permit udp any any eq 514"]
+    kw = dict(platform=platform, version=version)
+    if grouped:
+        kw["group_by"] = "= "
+    def entries(o):
+        for it in o.items:
+            if isinstance(it, cisco_acl.AceGroup):
+                yield from entries(it)
+            elif isinstance(it, cisco_acl.Ace):
+                yield it
+    texts = []
+    fails = []
+    try:
+        acl = cisco_acl.Acl("\n".join([head] + [" " + l for l in lines]), **kw)
+        if op == "render":
+            texts = acl.line.splitlines()[1:]
+        elif op == "platform-same":
+            acl.platform = platform
+            texts = acl.line.splitlines()[1:]
+        elif op == "entry-copy":
+            texts = [e.copy().line for e in entries(acl)]
+        elif op == "entry-port_nr-toggle":
+            for e in entries(acl):
+                e.port_nr = True
+                e.port_nr = False
+            texts = [e.line for e in entries(acl)]
+        elif op == "group-copy":
+            texts = [l for it in acl.items for l in (it.copy().line.splitlines() if isinstance(it, cisco_acl.AceGroup) else [it.line])]
+        elif op == "ungroup_ports":
+            acl.ungroup_ports()
+            texts = acl.line.splitlines()[1:]
+    except (ValueError, TypeError, KeyError) as ex:
+        # every operation here only rebuilds entries from what the library itself rendered for this platform and version
+        fails.append(dict(key="bounded/container:own-names-refused", what=f"{platform}/{version} ({'grouped' if grouped else 'flat'} ACL, {op}): the library refuses "
+                                                                            f"the port names it rendered itself: {type(ex).__name__}: {str(ex)[:120]}",
+                          inputs=dict(platform=platform, version=version, grouped=grouped, operation=op),
+                          cmd=("import sys; sys.path.insert(0, 'props'); import C09\n"
+                               f"fails, _ = C09.check_container({arg!r})\nprint([f['what'] for f in fails][:3]); sys.exit(1 if fails else 0)\n")))
+    for t in texts:
+        toks = t.split()
+        if "remark" in toks[:2]:
+            continue
+        proto = "tcp" if "tcp" in toks else "udp"
+        known = tcp_names if proto == "tcp" else udp_names
+        for i, tok in enumerate(toks):
+            if tok == "eq":
+                for w in toks[i + 1:]:
+                    if w in ("any", "log") or "." in w or w == "eq":
+                        break
+                    if not w.isdigit() and w not in known:
+                        fails.append(dict(key="bounded/container:name-not-of-this-version", what=f"{platform}/{version} ({'grouped' if grouped else 'flat'} ACL, {op}): "
+                                                                                              f"{t.strip()!r} uses the {proto} port keyword {w!r}, which this platform/version does not have",
+                                          inputs=dict(platform=platform, version=version, grouped=grouped, operation=op),
+                                          cmd=("import sys; sys.path.insert(0, 'props'); import C09\n"
+                                               f"fails, _ = C09.check_container({arg!r})\nprint([f['what'] for f in fails][:3]); sys.exit(1 if fails else 0)\n")))
+    return fails[:2], 1
+
+
 def check_alias(arg):
     """what the public getters hand out is the caller's: editing it must not change what the library knows (run in its own process)"""
     import cisco_acl
@@ -233,6 +298,19 @@ def main(chk):
     chk.add_bounded("real Port / Protocol / PortName over every (platform, version, protocol, name, number, switch)", sum(d for _, d in res) * 2, sum(d for _, d in res),
                     "3 platforms x 6 version strings x {tcp,udp,6,17} x every table name x port_nr; 3 platforms x (every protocol name + 0..255) x protocol_nr",
                     viol, time.time() - t0, [dict(platform="ios", version="15", protocol="tcp", name="syslog")], exhaustive=True)
+    t0 = time.time()
+    ccases = [(p, v, g, op, sorted(expected_table(consts, p, v.split(".")[0].split("(")[0], "tcp")), sorted(expected_table(consts, p, v.split(".")[0].split("(")[0], "udp")))
+              for p, v in (("ios", "15.2(02)SY"), ("ios", "16.09.06"), ("nxos", "9.3")) for g in (False, True)
+              for op in ("render", "platform-same", "entry-copy", "entry-port_nr-toggle", "group-copy", "ungroup_ports")]
+    res = pmap(check_container, ccases)
+    viol = 0
+    for fails, _ in res:
+        for f in fails:
+            viol += 1
+            chk.finding(f["key"], f["what"], inputs=f["inputs"], cmd=f.get("cmd"), key=f["key"])
+    chk.add_bounded("port keywords rendered for entries inside ACLs and groups belong to the container's platform/version, also after rebuilding operations", len(ccases), len(ccases),
+                    "3 platform/version pairs x flat/grouped x 6 operations on an ACL with version-specific ports (135, 514, 15001, udp 521)", viol, time.time() - t0,
+                    [list(ccases[7][:4])], exhaustive=True)
     t0 = time.time()
     acases = [(p, v, proto) for p in PLATFORMS for v in ("0", "15", "16") for proto in ("tcp", "udp")]
     res = pmap(check_alias, acases)
